@@ -107,9 +107,13 @@ fn check_shared_releaser(fair: bool, st: [u8; N], queue: &[usize]) {
 
 #[kani::proof]
 fn fresh_shared_future_is_not_terminated() {
-    let ssem = SSem::new(kani::any(), kani::any());
-    let sf = ssem.acquire(kani::any());
+    let p0: usize = kani::any();
+    let ssem = SSem::new(kani::any(), p0);
+    let n: usize = kani::any();
+    let sf = ssem.acquire(n);
     assert!(!sf.is_terminated(), "[C17] is_terminated() is false from creation");
+    assert!(sf.wait_node.state == PollState::New && sf.wait_node.task.is_none() && sf.wait_node.required_permits == n && sf.auto_release, "[C05] [C06] a new shared acquire future asks for exactly n permits, releases them automatically, and has not started waiting");
+    assert!(ssem.permits() == p0, "[C05] creating a future takes no permits");
 }
 
 macro_rules! inst {
